@@ -123,9 +123,9 @@ PROPS["C06"] = render_prop(
     "reflect-level lookup (getValue) is modelled, validated by the eval stream.",
     extra_streams=[dict(name="eval", family="eval", quick=2000, thorough=100000, nontrivial=r"."), REF_STREAM])
 PROPS["C07"] = render_prop(
-    "Theorems: define is never rendered in place, insert appends the fragment's output inside the host tag and replace writes it instead of the host, both discard the host's children and evaluate the fragment in the call-site scope on a fresh object, unknown names are template-not-found, only a first/last blank text child is trimmed, and the name table does not depend on load order (for permuted file lists); tied to the code by diffing 1-3 files in random load order with fragments before/after use, nested, computed names; the 'ref' stream adds acyclic templates that include a fragment 129-300 times (under a range, as siblings, by repeated execution of one object): the number of inclusions is not bounded, only their nesting.",
+    "Theorems: define is never rendered in place, insert appends the fragment's output inside the host tag and replace writes it instead of the host, both discard the host's children and evaluate the fragment in the call-site scope on a fresh object, unknown names are template-not-found, only a first/last blank text child is trimmed, and the name table does not depend on load order (for permuted file lists); tied to the code by diffing 1-3 files in random load order with fragments before/after use, nested, computed names; the 'ref' stream adds acyclic templates that include a fragment 129-300 times (under a range, as siblings, by repeated execution of one object): the number of inclusions is not bounded, only their nesting; the 'fs' stream loads directory trees through Parse: a file is resolved by its relative path.",
     "",
-    extra_streams=[REF_STREAM])
+    extra_streams=[REF_STREAM, dict(name="fs", family="fs", quick=1500, thorough=50000, nontrivial=r"EV .")])
 PROPS["C16"] = render_prop(
     "Theorem: for loader-built trees, executing a template from two arbitrary well-formed condition tables gives the same output, result and call log, hence the i-th execution of any history on one template object equals a fresh execution (history_pure); tied to the code by histories of 1-3 valuations (including failing renders and failing writers) on one object, plus the direct oracle comparing every run with a fresh object (output, error class and error text); the 'ref' stream executes one object 130 times.",
     "",
